@@ -10,7 +10,8 @@ Open Scope N_scope.
 Inductive rop :=
 | RReg (d c : N)            (* RegisterChainKey with the announcement d made after c seals *)
 | ROpen (d k cid : N)       (* OpenEnvelopePayload of d's k-th envelope, delivered under [cid] *)
-| RKnown (d : N).           (* IsChainKeyKnownForDevice *)
+| RKnown (d : N)            (* IsChainKeyKnownForDevice *)
+| RSealOwn (d : N).         (* the store's own device d seals a message (C01/C10 histories only) *)
 
 Inductive out := OOk (payload : N) | OFail | ODone | OBool (b : bool).
 
@@ -32,6 +33,9 @@ Definition rstep (W : nat) (s : store) (o : rop) : store * out :=
     let '(r, ms) := open_step s (honest_env grp d d k cid) cid None in
     (apply_muts s ms, match r with ROk p => OOk p | RFail => OFail end)
   | RKnown d => (s, OBool (match s (KChain grp d) with Some _ => true | None => false end))
+  | RSealOwn d =>
+    let s1 := apply_muts s (own_chain_muts s grp d d) in
+    (apply_muts s1 (snd (seal_step s1 grp d 0)), ODone)
   end.
 
 Fixpoint rrun (W : nat) (s : store) (ops : list rop) : list out :=
@@ -65,6 +69,7 @@ Definition sstep (W : nat) (st : sstate) (o : rop) : sstate * out :=
            else (st, OFail)
     end
   | RKnown d => (st, OBool (match st d with Some _ => true | None => false end))
+  | RSealOwn _ => (st, ODone)
   end.
 
 Fixpoint srun (W : nat) (st : sstate) (ops : list rop) : list out :=
